@@ -45,6 +45,19 @@ type progFile struct {
 	// and an empty mdat box at the very end of the file
 	largeFree    bool
 	trailingMdat bool
+	// header lengths (0 = none, 8, 16 = largesize header) of further EMPTY mdat boxes: one right after ftyp/free, i.e.
+	// before both moov and the real mdat, and one at the very end of the file (several media-data boxes in one file)
+	emptyMdatBefore, emptyMdatAfter int
+}
+
+func emptyMdatBox(hdr int) []byte {
+	switch hdr {
+	case 8:
+		return []byte{0, 0, 0, 8, 'm', 'd', 'a', 't'}
+	case 16:
+		return []byte{0, 0, 0, 1, 'm', 'd', 'a', 't', 0, 0, 0, 0, 0, 0, 0, 16}
+	}
+	return nil
 }
 
 func runLengths32(v []uint32) (counts, vals []uint32) {
@@ -242,6 +255,7 @@ func (pf *progFile) build(r *rand.Rand) {
 	if pf.largeFree {
 		extra = []byte{0, 0, 0, 1, 'f', 'r', 'e', 'e', 0, 0, 0, 0, 0, 0, 0, 21, 1, 2, 3, 4, 5}
 	}
+	extra = append(extra, emptyMdatBox(pf.emptyMdatBefore)...)
 	var payloadStart uint64
 	if pf.mdatFirst {
 		payloadStart = ftyp.Size() + uint64(len(extra)) + uint64(hdr)
@@ -302,6 +316,7 @@ func (pf *progFile) build(r *rand.Rand) {
 	if pf.trailingMdat {
 		buf.Write([]byte{0, 0, 0, 8, 'm', 'd', 'a', 't'})
 	}
+	buf.Write(emptyMdatBox(pf.emptyMdatAfter))
 	pf.bytes = buf.Bytes()
 	if pf.mdatStart+uint64(hdr) != payloadStart {
 		panic(fmt.Sprintf("layout mismatch %d %d", pf.mdatStart+uint64(hdr), payloadStart))
